@@ -147,6 +147,10 @@ pub struct StoreTrace {
     /// Some(ms): the store is configured with enable_ttl and this default TTL (plain `put` then expires too)
     #[serde(default)]
     pub default_ttl: Option<u64>,
+    /// Some(ms): the store is configured with auto_checkpoint = true and this checkpoint_interval — two
+    /// configuration fields the pinned code never reads; an explicit checkpoint() must behave the same
+    #[serde(default)]
+    pub auto: Option<u64>,
     pub ops: Vec<Op>,
     pub tick_pattern: Vec<u8>,
     /// Some(i): sweep every crash point (every shim call, every byte offset of the file) of the
@@ -467,10 +471,12 @@ fn check_against(seen: &Seen, snap: &Snap, clause: &str, site: &str, what: &str,
     Ok(())
 }
 
-fn new_store(dir: &PathBuf, max_checkpoints: usize, default_ttl: Option<u64>) -> StateStore {
+fn new_store(dir: &PathBuf, max_checkpoints: usize, default_ttl: Option<u64>, auto: Option<u64>) -> StateStore {
     StateStore::with_config(StateConfig {
         backend: StateBackend::File { path: dir.clone() },
         max_checkpoints,
+        auto_checkpoint: auto.is_some(),
+        checkpoint_interval: Duration::from_millis(auto.unwrap_or(60_000)),
         enable_ttl: default_ttl.is_some(),
         default_ttl: Duration::from_millis(default_ttl.unwrap_or(3_600_000)),
         ..Default::default()
@@ -480,7 +486,7 @@ fn new_store(dir: &PathBuf, max_checkpoints: usize, default_ttl: Option<u64>) ->
 /// Probe with a separate store object on the same directory (no fault plan active).
 fn probe_restore(dir: &PathBuf, id: &str) -> Result<Seen, String> {
     disk_begin(None);
-    let mut p = new_store(dir, 1000, None);
+    let mut p = new_store(dir, 1000, None, None);
     let r = p.restore(id);
     let _ = disk_end();
     match r {
@@ -566,7 +572,7 @@ struct Exec<'a> {
 impl<'a> Exec<'a> {
     fn restart(&mut self, obs: &mut Obs) {
         self.store = None;
-        self.store = Some(new_store(&self.dir, self.t.max_checkpoints, self.t.default_ttl));
+        self.store = Some(new_store(&self.dir, self.t.max_checkpoints, self.t.default_ttl, self.t.auto));
         self.m.live.clear();
         self.m.incarnation.clear();
         self.m.restarts += 1;
@@ -986,7 +992,7 @@ fn run_once(t: &StoreTrace, obs: &mut Obs, override_fault: Option<(usize, Fault)
     let mut ex = Exec {
         t,
         dir: dir.clone(),
-        store: Some(new_store(&dir, t.max_checkpoints, t.default_ttl)),
+        store: Some(new_store(&dir, t.max_checkpoints, t.default_ttl, t.auto)),
         m: Model { live: BTreeMap::new(), ckpts: Vec::new(), incarnation: Vec::new(), restarts: 0 },
         record_at,
         record_now: false,
@@ -1198,10 +1204,12 @@ impl World for StoreWorld {
                 }
             }
         }
+        // configuration swarm: one run in five switches auto_checkpoint on, with an interval from 0 ms to a minute
+        let auto = if rng.chance(1, 5) { Some(*rng.pick(&[0u64, 1, 5, 60_000])) } else { None };
         if storm {
-            return StoreTrace { hash_seed, max_checkpoints, default_ttl, ops, tick_pattern, sweep_op: None };
+            return StoreTrace { hash_seed, max_checkpoints, default_ttl, auto, ops, tick_pattern, sweep_op: None };
         }
-        StoreTrace { hash_seed, max_checkpoints, default_ttl, ops, tick_pattern, sweep_op }
+        StoreTrace { hash_seed, max_checkpoints, default_ttl, auto, ops, tick_pattern, sweep_op }
     }
 
     fn hash_seed(&self, t: &StoreTrace) -> u64 {
